@@ -103,6 +103,73 @@ theorem c41_unfixed_counterexample :
     get old "/a/root".toList "../x".toList = .openFile "/a/x".toList := by
   decide
 
+/-- **PutMany** is all-or-nothing and every reference it stores went through the same check: each stored
+entry is a URL stored verbatim or a file reference lexically inside the root that resolves to the cleaned
+referenced path. -/
+theorem c41_putMany_contained (cfg : Cfg) (hfix : cfg.fixed = true) (root : Str) (fulls rs : List Str)
+    (h : putMany cfg root fulls = .ok rs) :
+    rs.length = fulls.length ∧ ∀ fr ∈ fulls.zip rs, put cfg root fr.1 = .url fr.2 ∨
+      (put cfg root fr.1 = .file fr.2 ∧ inside (cleanCP root) (cleanCP fr.1) ∧ join2 root fr.2 = clean fr.1) := by
+  induction fulls generalizing rs with
+  | nil => simp [putMany] at h; subst h; simp
+  | cons full rest ih =>
+    unfold putMany at h
+    split at h
+    · rename_i s hp
+      split at h
+      · rename_i ss hrest
+        simp at h; subst h
+        have := ih ss hrest
+        refine ⟨by simp [this.1], ?_⟩
+        intro fr hfr
+        simp only [List.zip_cons_cons, List.mem_cons] at hfr
+        rcases hfr with e | e
+        · subst e; exact Or.inr ⟨hp, c41_contained cfg hfix root full s hp⟩
+        · exact this.2 fr e
+      · simp at h
+    · rename_i s hp
+      split at h
+      · rename_i ss hrest
+        simp at h; subst h
+        have := ih ss hrest
+        refine ⟨by simp [this.1], ?_⟩
+        intro fr hfr
+        simp only [List.zip_cons_cons, List.mem_cons] at hfr
+        rcases hfr with e | e
+        · subst e; exact Or.inl hp
+        · exact this.2 fr e
+      · simp at h
+    · simp at h
+
+/-- **Symbolic links, positive part.** `os.Open` resolves the opened path element by element
+(`physical`, for any table of symbolic links).  If no element strictly below the root on the way to the
+referenced file is a symbolic link, the file that is physically opened lies below the physical location
+of the root, by ordinary names only. -/
+theorem c41_get_physically_inside (cfg : Cfg) (hfix : cfg.fixed = true) (root full r : Str)
+    (links : List (List Str × List Str)) (h : put cfg root full = .file r) :
+    ∃ rest, (cleanCP (clean full)).comps = (cleanCP root).comps ++ rest ∧ (∀ c ∈ rest, Normal c = true) ∧
+      ((∀ k, 0 < k → k ≤ rest.length →
+          lookupLink links (physical links (cleanCP root).comps ++ rest.take k) = none) →
+        physical links (cleanCP (clean full)).comps = physical links (cleanCP root).comps ++ rest) := by
+  obtain ⟨_, rest, hrest, hn⟩ := (c41_get_inside cfg hfix root full r h).2
+  refine ⟨rest, hrest, hn, ?_⟩
+  intro hno
+  rw [hrest, physical_append, foldl_physStep_nolink links rest _ hno]
+
+/-- **Symbolic links, negative part (what the code does).** The check is lexical: with
+`/a/root/link → /a/outside`, the reference `/a/root/link/secret` is accepted (it is lexically inside),
+stored as `link/secret`, `Get` opens `/a/root/link/secret`, and the operating system reads
+`/a/outside/secret`, which is not below the root. -/
+theorem c41_symlink_escape :
+    let cfg : Cfg := { allowFiles := true, allowUrls := false }
+    let links : List (List Str × List Str) :=
+      [(["a".toList, "root".toList, "link".toList], ["a".toList, "outside".toList])]
+    put cfg "/a/root".toList "/a/root/link/secret".toList = .file "link/secret".toList ∧
+    get cfg "/a/root".toList "link/secret".toList = .openFile "/a/root/link/secret".toList ∧
+    physical links (cleanCP "/a/root/link/secret".toList).comps = ["a".toList, "outside".toList, "secret".toList] ∧
+    physical links (cleanCP "/a/root".toList).comps = ["a".toList, "root".toList] := by
+  decide
+
 /-! Non-vacuity: the fixed check accepts ordinary and unclean-but-inside references and rejects the
 two escaping shapes. -/
 example : put { allowFiles := true, allowUrls := false } "/a/root".toList "/a/root/x/../d/f".toList
